@@ -356,6 +356,10 @@ func AddStructType(currentNodeName string, x *ast.StructType, currentFile *core_
 		property := BuildPropertyField(getFieldName(field), field)
 		member.FileID = currentFile.FullName
 		ioproperties = append(ioproperties, *property)
+		// "a, b T" declares one field per name
+		for i := 1; i < len(field.Names); i++ {
+			ioproperties = append(ioproperties, *BuildPropertyField(field.Names[i].Name, field))
+		}
 
 		call := core_domain.CodeCall{
 			Package:  getPackageName(property.TypeValue, "", currentFile.Imports),
